@@ -1,34 +1,32 @@
 (* Properties/C03.v — C03: static name resolution is sound and complete.
-   StaticScope.chk_program true is the specified resolution, Eval.v the
-   run-time scope chain.  Proved here: the operation-level soundness lemmas
-   (every static scope operation agrees with its run-time counterpart: lookup,
-   declaration, fork) and the scoping rules the property names (shadowing,
-   redeclaration, COLLECT hiding, a variable is not visible in its own
-   initializer), and WHOLE-PROGRAM SOUNDNESS for the COLLECT-free fragment
-   (check_sound_partial: every expression form, LET, FOR / FOR-WHILE with
-   FILTER, SORT, LIMIT, statements, nesting and sub-queries; by simultaneous
-   induction over the evaluator, the iterator state machines and the data-source
-   chain, Proofs/ScopeSound.v).  For programs containing COLLECT the same
-   statement is not proved; it is tested on every generated program by the
-   correspondence check (mismatch kind 5).  Statements only. *)
+   StaticScope.chk_program true true is the specified resolution (COLLECT in all
+   six forms included), Eval.v the run-time scope chain.  Proved here:
+   WHOLE-PROGRAM SOUNDNESS (check_sound: a program the checker accepts never
+   fails at run time because a variable is missing, already declared or unnamed,
+   for every fuel, parameter set, cancellation point and injected failure — by
+   simultaneous induction over the evaluator, every iterator state machine
+   including the COLLECT group table, and the data-source chain, with a
+   simulation between static and run-time scope chains, Proofs/ScopeSound.v);
+   the operation-level lemmas; and the scoping rules the property names
+   (shadowing, redeclaration, COLLECT hiding, a variable is not visible in its
+   own initializer).  Statements only. *)
 From Ferret Require Import Eval StaticScope Proofs.ScopeProofs Proofs.ScopeSound.
 
-(* a program accepted by the specified checker (here with COLLECT rejected)
-   never fails at run time because a variable is missing, already declared or
-   unnamed — for every evaluation fuel and every world (parameters,
-   cancellation point, injected failure) *)
-Theorem check_sound_partial : forall p cf, chk_program true false cf p = COk ->
+(* a program accepted by the specified checker never fails at run time because
+   a variable is missing, already declared or unnamed — for every evaluation
+   fuel and every world (parameters, cancellation point, injected failure) *)
+Theorem check_sound : forall p cf, chk_program true true cf p = COk ->
   forall fuel w,
     match fst (run_body fuel p w) with
     | Err EScopeNotFound | Err EScopeNotUnique | Err EScopeUnnamed => False
     | _ => True
     end.
 Proof.
-  intros p cf C fuel w. pose proof (check_sound_nocollect p cf C fuel w) as H.
+  intros p cf C fuel w. pose proof (check_sound_full p cf C fuel w) as H.
   destruct (fst (run_body fuel p w)) as [v|e| | | | |]; try exact I.
   destruct e; try exact I; discriminate H.
 Qed.
-Print Assumptions check_sound_partial.
+Print Assumptions check_sound.
 
 
 (* soundness of lookups: statically visible => bound at run time, for every
@@ -91,15 +89,16 @@ Example collect_hides_loop_variable :
   let q := ForIn i_ None (EArr [EInt 1]) [CCollect [(g_, EVar i_)] CTNone] (RReturn false (EVar i_)) in
   chk_program true true 50 {| p_stmts := []; p_ret := BFor q |} = CNotFound.
 Proof. reflexivity. Qed.
-(* non-vacuity of check_sound_partial: a nested, shadowing, filtering, sorting
-   program with a sub-query is accepted by the COLLECT-rejecting checker *)
-Example check_sound_partial_applies :
+(* non-vacuity of check_sound: a nested, shadowing, filtering, sorting,
+   grouping program with a sub-query is accepted by the checker *)
+Example check_sound_applies :
   let q := ForIn i_ None (ERange (EInt 1) (EInt 3))
              [CLet x_ (EMath MMul (EVar i_) (EInt 2)); CFilter (ECmp CGt (EVar x_) (EInt 2));
               CSort [(EVar x_, true)]; CLimit None (EInt 5)]
-             (RFor (ForIn i_ None (ESub (ForIn g_ None (EArr [EVar x_]) [] (RReturn false (EVar g_)))) []
-                      (RReturn false (EArr [EVar i_; EVar x_])))) in
-  chk_program true false 50 {| p_stmts := [SLet g_ (EInt 0)]; p_ret := BFor q |} = COk.
+             (RFor (ForIn i_ None (ESub (ForIn g_ None (EArr [EVar x_]) [] (RReturn false (EVar g_))))
+                      [CCollect [(g_, EMath MMod (EVar i_) (EInt 2))] (CTAggr [(x_, bs "ARR", [EVar i_])])]
+                      (RReturn false (EArr [EVar g_; EVar x_])))) in
+  chk_program true true 50 {| p_stmts := [SLet g_ (EInt 0)]; p_ret := BFor q |} = COk.
 Proof. reflexivity. Qed.
 
 Example shadowing_in_nested_loop_accepted :
